@@ -21,7 +21,7 @@ Definition dec_bits (e : sexp) : option (list bool) :=
   match dec_str e with Some s => bits_of_string s | None => None end.
 
 Inductive c09_op := OUpd (iss rev : list Z) (t : option Z) | OTouch (t : Z) | OHop | OIssue (i : Z).
-Inductive c09_res := RState (b : list bool) (t : option Z) (cls : Z) (flag : bool) | RIssued (cls : Z) | RErr.
+Inductive c09_res := RState (b : list bool) (t : option Z) (cls : Z) (flag : bool) | RIssued (cls : Z) | RErr | RPanic.
 
 Definition dec_op (e : sexp) : option c09_op :=
   match e with
@@ -40,6 +40,7 @@ Definition dec_res (e : sexp) : option c09_res :=
       | Some b', Some t', Some c', Some f' => Some (RState b' t' c' f') | _, _, _, _ => None end
   | L [A "ok"; c] => option_map RIssued (dec_Z c)
   | L [A "err"] => Some RErr
+  | L [A "panic"] => Some RPanic
   | _ => None
   end.
 
